@@ -341,8 +341,9 @@ class _XSLibrary:
 
     def _mergeNeutronEnergies(self, other):
         self.neutronEnergyUpperBounds = other.neutronEnergyUpperBounds
-        # neutron velocity changes, but just use the first one.
-        if not hasattr(self, "_neutronVelocity"):
+        # neutron velocity changes, but just use the first one (the first library that has one:
+        # a library without neutron velocities, e.g. PMATRX or GAMISO, leaves None behind)
+        if getattr(self, "_neutronVelocity", None) is None:
             self.neutronVelocity = other.neutronVelocity
 
     def items(self):
